@@ -58,13 +58,18 @@ def run(ctx: Ctx) -> None:
                 isinstance(n.func.value, ast.Call) and ast.unparse(
                 n.func.value.func) == "super":
             sup = n
-    if sup is None or len(sup.args) < 2:
+    from sa.srcmodel import bound_args
+    base_init = repo.func("moptipyapps.qap.instance", "Instance.__init__")
+    sargs = bound_args(sup, list(base_init.params[1:])) if sup is not None \
+        else {}
+    if sup is None or "distances" not in sargs or "flows" not in sargs:
         ctx.ob("D20.1", fi, fi.node, False,
                "the constructed matrices are never handed to the QAP base "
                "class (super().__init__(distances, flows) not found)",
                construct="matrices passed on")
         return
-    dname, fname = ast.unparse(sup.args[0]), ast.unparse(sup.args[1])
+    dname, fname = ast.unparse(sargs["distances"]), ast.unparse(
+        sargs["flows"])
     from sa.kern import py_calls as _pc
     ev = make_evaluator(repo, fi, extra_call=_pc)
     npar = Poly.atom(("app", "len", (Poly.var(fi.params[1]),)))
@@ -172,9 +177,15 @@ def run(ctx: Ctx) -> None:
                 except Unsupported:
                     clean = False
             clean = clean and len(qs[0].events) == len(got) == 2
-        ok1 = clean and r0 == (Poly.const(0), npar) and r1 == (
-            I + Poly.const(1), npar) and got == {(I, J): J - I,
-                                                 (J, I): J - I}
+        one = Poly.const(1)
+        upper = r0 is not None and r0[0] == Poly.const(0) and r0[1] in (
+            npar, npar - one) and r1 == (I + one, npar) and got == {
+            (I, J): J - I, (J, I): J - I}
+        # the mirrored scan: every pair j < i, both cells get i - j
+        lower = r0 is not None and r0[0] in (Poly.const(0), one) and \
+            r0[1] == npar and r1 == (Poly.const(0), I) and got == {
+            (I, J): I - J, (J, I): I - J}
+        ok1 = clean and (upper or lower)
         detail = (f"for i in [{show(r0[0]) if r0 else '?'}, "
                   f"{show(r0[1]) if r0 else '?'}), j in ["
                   f"{show(r1[0]) if r1 else '?'}, "
@@ -349,8 +360,12 @@ def run(ctx: Ctx) -> None:
            "is non-increasing in the rank (base max_val - rank + 1 "
            "decreases; positive power, positive multiplier, round and int "
            "preserve the order)" if ok4 else
-           f"`{ast.unparse(val2)[:120]}` is not provably non-increasing in "
-           f"the rank (direction {m}, positive factors: {pos})",
+           (f"`{ast.unparse(val2)[:120]}` increases with the rank: a "
+            "farther neighbour gets a larger flow" if m == 1 else
+            f"`{ast.unparse(val2)[:120]}`: cannot normalise the flow into "
+            "a product of positive factors and a power of a base that "
+            f"falls with the rank (direction {m}, positive factors: {pos}): "
+            "not recognised"),
            construct="flow antitone")
     # the base of the power is >= 1 (a power with exponent > 0 is only
     # monotone on a non-negative base): rank <= horizon (skip guard), rank
@@ -386,9 +401,12 @@ def run(ctx: Ctx) -> None:
            "max_val = min(n - 1, horizon); with rank <= horizon (skip "
            "guard) and rank <= n - 1 the base of the power is >= 1 (linear "
            "entailment in both cases of the minimum)" if base_ok else
-           "the base of the power is not provably >= 1 for every stored "
-           "rank: a farther neighbour could receive a larger (or a complex) "
-           "flow", construct="base >= 1")
+           ("the base of the power is not provably >= 1 for every stored "
+            "rank: a farther neighbour could receive a larger (or a "
+            "complex) flow" if len(bases) == 1 and "max_val" in names else
+            "the base of the power (max_val - rank + 1 with max_val = "
+            "min(n - 1, horizon)) is not recognised"),
+           construct="base >= 1")
     ctx.rule("D20.5", "swap distance = n - cycles of the relative "
              "permutation")
     _swap_distance(ctx)
@@ -487,6 +505,32 @@ def _power_positive(fi: FuncInfo) -> bool:
     return True
 
 
+def _pos_expr(e: ast.expr, pos: dict[str, bool]) -> bool:
+    """Is the (rank-independent) expression certainly > 0?"""
+    e = _fold(e)
+    if isinstance(e, ast.Constant):
+        return isinstance(e.value, (int, float)) and not isinstance(
+            e.value, bool) and e.value > 0
+    if isinstance(e, ast.Name):
+        return bool(pos.get(e.id))
+    if isinstance(e, ast.IfExp):
+        return _pos_expr(e.body, pos) and _pos_expr(e.orelse, pos)
+    if isinstance(e, ast.BinOp):
+        if isinstance(e.op, ast.Pow):
+            # a positive base to any real power is positive
+            return _pos_expr(e.left, pos)
+        if isinstance(e.op, (ast.Mult, ast.Add, ast.Div)):
+            return _pos_expr(e.left, pos) and _pos_expr(e.right, pos)
+    if isinstance(e, ast.Call) and isinstance(e.func, ast.Name):
+        if e.func.id == "float" and len(e.args) == 1:
+            return _pos_expr(e.args[0], pos)
+        if e.func.id == "check_int_range" and len(e.args) >= 3:
+            lo = _fold(e.args[2])
+            return isinstance(lo, ast.Constant) and isinstance(
+                lo.value, int) and lo.value >= 1
+    return False
+
+
 def _mono(e: ast.expr, var: str, pos: dict[str, bool]) -> int | None:
     """+1 non-decreasing, -1 non-increasing, 0 constant in `var`."""
     if isinstance(e, ast.Name):
@@ -510,6 +554,10 @@ def _mono(e: ast.expr, var: str, pos: dict[str, bool]) -> int | None:
             return a if nb in (0, a) else (nb if a == 0 else None)
         if isinstance(e.op, ast.Mult):
             # constant positive factor keeps the direction
+            if a == 0 and _pos_expr(e.left, pos):
+                return b
+            if b == 0 and _pos_expr(e.right, pos):
+                return a
             if a == 0 and isinstance(e.left, ast.Name) and pos.get(
                     e.left.id):
                 return b
@@ -528,6 +576,11 @@ def _mono(e: ast.expr, var: str, pos: dict[str, bool]) -> int | None:
             if b == 0 and isinstance(e.right, ast.Constant) and \
                     e.right.value > 0:
                 return a
+            # x ** (-p), p > 0: the direction is reversed
+            if b == 0 and isinstance(e.right, ast.UnaryOp) and isinstance(
+                    e.right.op, ast.USub) and _pos_expr(
+                    e.right.operand, pos):
+                return -a
             return None
     return None
 
@@ -666,6 +719,14 @@ def _swap_distance(ctx: Ctx) -> None:
                     lambda x: f"{x}-{cname}",
                     lambda x: f"int({x}-{cname})")):
             problems.append("the result is not n - (number of cycles)")
+    skeleton = [p_ for p_ in problems if p_.startswith((
+        "the scan does not visit every position", "no all-True"))]
+    if skeleton:
+        # another way of writing the computation (e.g. a `visited` array,
+        # a counter running down, enumerate): nothing is claimed about it
+        problems = ["the cycle-counting scheme (scan over range(n) with an "
+                    "all-True marker array) is not recognised: "
+                    + "; ".join(skeleton)]
     ctx.ob("D20.5", fi, fi.node, not problems,
            "swap_distance counts the cycles of p2[argsort(p1)] (each "
            "unvisited position starts one cycle, which is walked and marked "
@@ -816,7 +877,15 @@ def _merging(ctx: Ctx) -> None:
                         rdef.elts[0].value.elt,
                         rdef.elts[0].value.generators) and repo.const(
                         fi.module, rdef.elts[1]) == 0 and not zero_app
-                    if not (form1 or form2):
+                    # [d[i] for d in rows] + [0]
+                    form3 = isinstance(rdef, ast.BinOp) and isinstance(
+                        rdef.op, ast.Add) and isinstance(
+                        rdef.left, ast.ListComp) and col_i(
+                        rdef.left.elt, rdef.left.generators) and isinstance(
+                        rdef.right, ast.List) and len(
+                        rdef.right.elts) == 1 and repo.const(
+                        fi.module, rdef.right.elts[0]) == 0 and not zero_app
+                    if not (form1 or form2 or form3):
                         problems.append("a new row does not start with "
                                         "column i of the earlier rows "
                                         "followed by the diagonal entry 0")
@@ -845,12 +914,42 @@ def _merging(ctx: Ctx) -> None:
                     if len(rets) == 1 and isinstance(
                             rets[0].value, ast.Call) and src(
                             rets[0].value.func) == "Instance":
-                        a = [inline_locals(fi.node, x_)
-                             for x_ in rets[0].value.args]
+                        from sa.srcmodel import bound_args
+                        ipar = list(repo.func(
+                            MOD, "Instance.__init__").params[1:])
+                        ba = bound_args(rets[0].value, ipar)
+                        a = [inline_locals(fi.node, ba[p_])
+                             for p_ in ipar if p_ in ba]
+                        if [p_ for p_ in ipar if p_ in ba] != ipar[:len(a)]:
+                            a = []      # a gap in the bound parameters
+                        if a and isinstance(a[0], ast.Name):
+                            # a matrix local that is only built and handed
+                            # on (never changed in place afterwards)
+                            from sa.srcmodel import mutated_names
+                            dfs = [s_ for s_ in ast.walk(fi.node)
+                                   if isinstance(s_, (ast.Assign,
+                                                      ast.AnnAssign))
+                                   and getattr(s_, "value", None) is not None
+                                   and src(s_.targets[0] if isinstance(
+                                       s_, ast.Assign) else s_.target)
+                                   == a[0].id]
+                            if len(dfs) == 1 and a[0].id not in \
+                                    mutated_names(fi.node):
+                                a[0] = dfs[0].value
                         m_ok, m_why = _matrix_arg(a[0], rows or "?", src) \
                             if a else (False, "")
+                        tag_src = src(a[4]) if len(a) >= 5 else ""
+                        if len(a) >= 5 and isinstance(
+                                a[4], ast.Call) and isinstance(
+                                a[4].func, ast.Name):
+                            # a local generator function over the map
+                            for fd in ast.walk(fi.node):
+                                if isinstance(fd, ast.FunctionDef) and \
+                                        fd.name == a[4].func.id and \
+                                        fd is not fi.node:
+                                    tag_src += src(fd)
                         okr = len(a) >= 5 and m_ok and maps is not None \
-                            and maps in src(a[4])
+                            and maps in tag_src
                         if a and not m_ok and m_why:
                             problems.append(m_why)
                             okr = True      # reported with its own reason
@@ -948,8 +1047,9 @@ def _inner_rounds(repo: Any, fi: FuncInfo, ie: Any, q: Any, data: str,
             okc = len(loops) == 1 and isinstance(
                 loops[0].node, ast.For) and src(loops[0].node.iter) == rows \
                 and len(loops[0].node.body) == 1 and src(
-                loops[0].node.body[0]) == \
-                f"del{src(loops[0].node.target)}[{jv}]"
+                loops[0].node.body[0]) in (
+                f"del{src(loops[0].node.target)}[{jv}]",
+                f"{src(loops[0].node.target)}.pop({jv})")
             if not okc:
                 problems.append("the column of a merged object is not "
                                 "removed from the earlier rows")
